@@ -341,11 +341,17 @@ func init() {
 		{
 			reg := lint.VerifNewRegistry()
 			var want []string
-			srcs := []string{"Community", "RFC5280", "ACME_CPS", "", "cabf_br", "Unknown", "RFC6960"}
+			wantText := map[string][2]string{}
+			srcs := []string{"Community", "RFC5280", "ACME_CPS", "", "cabf_br", "Unknown", "RFC6960", "Community"}
 			for i, sc := range srcs {
 				for _, k := range []string{"cert", "crl", "ocsp"} {
 					nm := fmt.Sprintf("n_verif_private_%s_%d", k, i)
-					spt := &Script{Name: nm, Desc: "private lint (verification harness)", Cite: "none", Src: sc, Cfg: "none", App: "false", Exe: "res", ExeStatus: 3}
+					// texts of every kind of character: ASCII, Latin-1, other BMP, beyond the BMP (emoji, mathematical letters,
+					// rare ideographs), controls, quotes and backslashes, markup characters, line separators, bytes that are not UTF-8
+					texts := []string{"private lint (verification harness)", "Caf\u00e9 \u00a7 4.1.2.4", "\u8a3c\u660e\u66f8 \u2028 \u2029", "smile \U0001F600 fraktur \U0001D504 ideograph \U00020BB7 end", "tab\there \x01 \x7f \"quoted\" back\\slash",
+						"<b>&amp;</b> '", "bad \xff\xfe bytes \xc3", "\U0010FFFF\U00010000 edge"}
+					spt := &Script{Name: nm, Desc: texts[i%len(texts)], Cite: texts[(i+3)%len(texts)], Src: sc, Cfg: "none", App: "false", Exe: "res", ExeStatus: 3}
+					wantText[nm] = [2]string{string([]rune(spt.Desc)), string([]rune(spt.Cite))}
 					// dates of every magnitude: none, year 1, year 9999, year 10000, the far future of a 64-bit clock
 					switch i {
 					case 1:
@@ -380,14 +386,20 @@ func init() {
 					continue
 				}
 				var m struct {
-					Name   string `json:"name"`
-					Source string `json:"source"`
+					Name        string `json:"name"`
+					Source      string `json:"source"`
+					Description string `json:"description"`
+					Citation    string `json:"citation"`
 				}
 				if err := json.Unmarshal([]byte(ln), &m); err != nil {
 					out.Violate("C14|private-listing-line-undecodable", "a listing line of a registry with privately sourced lints is not a JSON object with a name: "+err.Error(), ln, nil, nil)
 					continue
 				}
 				got = append(got, m.Name)
+				if w, ok := wantText[m.Name]; ok && (m.Description != w[0] || m.Citation != w[1]) {
+					out.Violate("C14|private-listing-text:"+m.Name, fmt.Sprintf("the listing line of %s decodes to description %q / citation %q, the lint has %q / %q", m.Name, m.Description, m.Citation, w[0], w[1]),
+						map[string]interface{}{"line": ln}, w, [2]string{m.Description, m.Citation})
+				}
 			}
 			sort.Strings(got)
 			sort.Strings(want)
